@@ -1,0 +1,16 @@
+//go:build verif
+
+package cmputil
+
+// Contracts for the govc verifier (/verif). Comment-only; excluded from every
+// normal build by the tag above.
+
+// Two schema nodes may share one Go declaration only if they are equal in every
+// keyword that decides the generated type or its validation. The options may
+// therefore hide unexported bookkeeping fields and the two reference-carrying
+// fields (Ref, AnyOf) — nothing else: not Pattern, not Default, not any bound.
+//@ func Opts
+//@   props C06 C09 C05 C07 C08 C10 C02 C20
+//@   shape t = anyvals(1) | anyvals(2)
+//@   assigns nothing
+//@   ensures [C06,C09,C05,C07,C08,C10,C02,C20] ignores-only-ref-fields: cmp_options_only(result, "Ref", "AnyOf")
